@@ -30,6 +30,7 @@ func init() {
 			return err
 		}
 		defer o.close()
+		c05InitCall(db)
 		r := newRng(*f.seed)
 		g := c05NewGen(r)
 		dir := *work
@@ -62,8 +63,13 @@ func init() {
 				}
 			}
 		} else {
+			// quick: EVERY row of the table once (a change to a single row is exercised whatever the seed), then
+			// -n further instances spread over the opcodes
+			for i := range db.rows {
+				rows = append(rows, &db.rows[i])
+			}
 			var opcodes []string
-			for op := range db.byOpcode {
+			for op := range c05Call {
 				opcodes = append(opcodes, op)
 			}
 			sort.Strings(opcodes)
@@ -74,7 +80,7 @@ func init() {
 				if r.intn(len(opcodes)) < extra {
 					k++
 				}
-				idxs := db.byOpcode[op]
+				idxs := c05Call[op]
 				for j := 0; j < k; j++ {
 					rows = append(rows, &db.rows[pick(r, idxs)])
 				}
@@ -106,9 +112,12 @@ func init() {
 				stream = "hivec"
 			case x == 18 && c05HasEVEX(row):
 				stream = "k0mask"
+			case x >= 19 && x < 25:
+				stream = "shape"
 			}
 			c := g.build(db, row, stream)
 			if c == nil && stream != "form" {
+				g.stats["fallback_to_form_"+stream]++
 				c = g.build(db, row, "form")
 			}
 			add(c)
@@ -117,6 +126,43 @@ func init() {
 					add(g.build(db, row, "sibling"))
 					break
 				}
+			}
+		}
+		// ---- per operand type: a floor of well-typed instances and of near misses aimed at that operand
+		// (rare types — imm16, imm64, rel8, imm2u, fixed registers — otherwise appear a handful of times per quick run)
+		if *f.replay == "" {
+			byType := map[string][]int{}
+			for i := range db.rows {
+				seen := map[string]bool{}
+				for _, t := range db.rows[i].explicitTypes() {
+					if !seen[t] {
+						seen[t] = true
+						byType[t] = append(byType[t], i)
+					}
+				}
+			}
+			var tnames []string
+			for t := range byType {
+				tnames = append(tnames, t)
+			}
+			sort.Strings(tnames)
+			nForm, nMiss := 16, 10
+			if *f.tier == "thorough" {
+				nForm, nMiss = 60, 60
+			}
+			for _, t := range tnames {
+				k := nForm
+				if strings.HasPrefix(t, "imm") || strings.HasPrefix(t, "rel") {
+					k = 3 * nForm
+				}
+				for j := 0; j < k; j++ {
+					add(g.build(db, &db.rows[pick(r, byType[t])], "form"))
+				}
+				g.target = t
+				for j := 0; j < nMiss; j++ {
+					add(g.build(db, &db.rows[pick(r, byType[t])], "nearmiss"))
+				}
+				g.target = ""
 			}
 		}
 		for _, c := range replayed {
@@ -178,7 +224,7 @@ func init() {
 				if c.form != nil {
 					sig = strings.Join(c.form.explicitTypes(), ",")
 				}
-				fmt.Fprintf(w, "%s\t%s\t%s\t%s\t%s\t%s\t%s\t%s\t%s\t%s\t%d\n", c.gen.Opcode, strings.Join(c.sfx, "."), sig, c.stream,
+				fmt.Fprintf(w, "%s\t%s\t%s\t%s\t%s\t%s\t%s\t%s\t%s\t%s\t%d\n", c.call, strings.Join(c.sfx, "."), sig, c.stream,
 					strings.TrimSpace(c.line), c.status, c.errmsg, hex.EncodeToString(c.code), strings.Join(c.dis, " ; "), c.xdis, c.xmem)
 			}
 			w.Flush()
